@@ -999,6 +999,15 @@ func corpus() [][]string {
 	for i := 0; i < 12; i++ {
 		c = append(c, []string{"new 1 0", "0 arm 10", "2 add 10 1 plain", "4 ecancel 10", "6 release 10", "end 10"})
 	}
+	// Shutdown(IgnorePendingTimeouts) immediately followed by the Cancel of the element the poller holds (parked in
+	// the hook between timer creation and select): the poller must go on and deliver the other pending elements
+	// now.  select picks between the cancelled context and the closed cancel channel at random: several copies.
+	for i := 0; i < 5; i++ {
+		c = append(c,
+			[]string{"new 1 0", "0 arm 10", "2 add 10 21 plain", "4 add 11 23 plain", "6 add 12 25 plain", "8 shutdown i", "10 ecancel 10", "12 release 10", "end 28"},
+			[]string{"new 1 0", "0 arm 10", "2 exec 1 10 21 plain", "4 exec 2 11 23 plain", "6 add 12 25 plain", "8 shutdown id", "10 cancel 1", "12 release 10", "end 28"},
+			[]string{"new 2 0", "0 arm 10", "2 add 10 21 plain", "4 add 11 23 plain", "6 add 12 19 block", "8 add 13 25 plain", "10 shutdown i", "12 ecancel 10", "14 release 10", "16 release 12", "end 30"})
+	}
 
 	return c
 }
@@ -1013,7 +1022,7 @@ type strTask struct {
 	revoked atomic.Bool // Cancel(id) returned true for it, or it was replaced while not started (owner's view)
 }
 
-func runStress(r *hx.Run, sub uint64, variant string, workers, owners, rounds int) {
+func runStress(r *rec, sub uint64, variant string, workers, owners, rounds int) {
 	r.Case(sub)
 	rng := hx.NewRng(sub)
 	op := fmt.Sprintf("stress %s %d %d %d", variant, workers, owners, rounds)
@@ -1153,7 +1162,7 @@ func runStress(r *hx.Run, sub uint64, variant string, workers, owners, rounds in
 
 // runBurst: ExecuteAt immediately followed by Shutdown(flags) while the other workers are still parked in
 // waitCond.Wait(): Shutdown must return, pending tasks are delivered or dropped according to the flags.
-func runBurst(r *hx.Run, sub uint64, fl string, workers, k, reps int) {
+func runBurst(r *rec, sub uint64, fl string, workers, k, reps int) {
 	r.Case(sub)
 	op := fmt.Sprintf("burst %s %d %d %d", fl, workers, k, reps)
 	var flags []timed.ShutdownFlag
@@ -1245,7 +1254,7 @@ func runBurst(r *hx.Run, sub uint64, fl string, workers, k, reps int) {
 // runAddRace: forced schedule through the verif hook in Queue.Add.  ExecuteAt passes the shutdown check, then
 // Shutdown() runs (as far as it can), then the element is inserted.  An element whose ExecuteAt returned non-nil
 // and that is neither cancelled nor dropped by a flag must still be delivered.
-func runAddRace(r *hx.Run, sub uint64, workers, reps int) {
+func runAddRace(r *rec, sub uint64, workers, reps int) {
 	r.Case(sub)
 	op := fmt.Sprintf("addrace %d %d", workers, reps)
 	var fails []finding
@@ -1316,7 +1325,7 @@ func runAddRace(r *hx.Run, sub uint64, workers, reps int) {
 // runAddBurst: idle pollers and Adds back to back.  One callback blocks on a harness channel; every other element
 // that is due and not cancelled must be delivered within the bound although that worker is blocked (each Add has to
 // wake a waiting poller, not only the Add that finds the queue empty).
-func runAddBurst(r *hx.Run, sub uint64, workers, k int, sameDue bool, reps int) {
+func runAddBurst(r *rec, sub uint64, workers, k int, sameDue bool, reps int) {
 	r.Case(sub)
 	op := fmt.Sprintf("addburst %d %d %v %d", workers, k, sameDue, reps)
 	var fails []finding
@@ -1419,7 +1428,7 @@ func runAddBurst(r *hx.Run, sub uint64, workers, k int, sameDue bool, reps int) 
 // runSdRace: public API only.  Adders call ExecuteAt in a loop while Shutdown() (no flag) is called: an element whose
 // ExecuteAt returned non-nil must be delivered (Shutdown without CancelPendingElements drops nothing), and Shutdown
 // must return.
-func runSdRace(r *hx.Run, sub uint64, workers, adders, reps int) {
+func runSdRace(r *rec, sub uint64, workers, adders, reps int) {
 	r.Case(sub)
 	rng := hx.NewRng(sub)
 	op := fmt.Sprintf("sdrace %d %d %d", workers, adders, reps)
@@ -1514,6 +1523,130 @@ func runSdRace(r *hx.Run, sub uint64, workers, adders, reps int) {
 	r.Nontrivial(fmt.Sprintf("sdrace-%d-%d", workers, adders))
 }
 
+// runCancelRace: Cancel of queued elements races Adds with earlier due times and the pollers, all of which move
+// elements inside the heap (the cancelled element's index changes while Cancel waits for the heap lock).  Exactly the
+// cancelled elements may be missing afterwards; every other element is delivered exactly once; nothing panics.
+func runCancelRace(r *rec, sub uint64, workers, reps int) {
+	r.Case(sub)
+	rng := hx.NewRng(sub)
+	op := fmt.Sprintf("cancelrace %d %d", workers, reps)
+	var fails []finding
+	var fmu sync.Mutex
+	failf := func(oracle, detail string, sig map[string]string) {
+		fmu.Lock()
+		fails = append(fails, finding{oracle, detail, sig, true})
+		fmu.Unlock()
+	}
+	total, cancelledN := 0, 0
+	for rep := 0; rep < reps; rep++ {
+		te := timed.NewTaskExecutor[int](workers)
+		type el struct {
+			h         *timed.ScheduledTask
+			runs      atomic.Int32
+			cancelled atomic.Bool
+		}
+		var mu sync.Mutex
+		var els []*el
+		add := func(d time.Duration) *el {
+			e := &el{}
+			e.h = te.Executor.ExecuteAt(func() { e.runs.Add(1) }, time.Now().Add(d))
+			mu.Lock()
+			els = append(els, e)
+			mu.Unlock()
+
+			return e
+		}
+		// a populated heap: dues between 3 and 9 ms
+		var victims []*el
+		for i := 0; i < 24; i++ {
+			victims = append(victims, add(time.Duration(3000+rng.Intn(6000))*time.Microsecond))
+		}
+		var wg sync.WaitGroup
+		stop := make(chan struct{})
+		// adders with earlier due times: every push sifts up past the victims
+		for a := 0; a < 4; a++ {
+			wg.Add(1)
+			go func(seed uint64) {
+				defer wg.Done()
+				lr := hx.NewRng(seed)
+				for i := 0; i < 400; i++ {
+					select {
+					case <-stop:
+						return
+					default:
+					}
+					add(time.Duration(lr.Intn(2500)) * time.Microsecond)
+				}
+			}(rng.U64())
+		}
+		// cancellers
+		for c := 0; c < 4; c++ {
+			wg.Add(1)
+			go func(mine []*el) {
+				defer wg.Done()
+				for _, e := range mine {
+					e.cancelled.Store(true)
+					if p := hx.Safely(func() { e.h.Cancel() }); p != "" {
+						failf("crash", "cancelrace: QueueElement.Cancel() panicked: "+p, map[string]string{"oracle": "panic", "mode": "cancelrace"})
+					}
+				}
+			}(victims[c*4 : c*4+4])
+		}
+		wg.Wait()
+		close(stop)
+		// everything is due within 10 ms
+		deadline := time.Now().Add(2 * time.Second)
+		missing := 0
+		for {
+			missing = 0
+			mu.Lock()
+			for _, e := range els {
+				if e.runs.Load() == 0 && !e.cancelled.Load() {
+					missing++
+				}
+			}
+			mu.Unlock()
+			if missing == 0 || time.Now().After(deadline) {
+				break
+			}
+			time.Sleep(2 * time.Millisecond)
+		}
+		mu.Lock()
+		for _, e := range els {
+			total++
+			if e.cancelled.Load() {
+				cancelledN++
+			}
+			if e.runs.Load() > 1 {
+				failf("at-most-once", "cancelrace: element delivered twice", map[string]string{"oracle": "double-run", "mode": "cancelrace"})
+			}
+		}
+		mu.Unlock()
+		if missing > 0 {
+			failf("eventually-delivered", fmt.Sprintf("cancelrace: %d workers, Cancel of queued elements racing Adds with earlier due times: %d element(s) that nobody cancelled were never delivered", workers, missing),
+				map[string]string{"oracle": "missing-delivery", "mode": "cancelrace"})
+		}
+		done := make(chan struct{})
+		go func() { te.Shutdown(); close(done) }()
+		select {
+		case <-done:
+		case <-time.After(3 * time.Second):
+			failf("shutdown-returns", "cancelrace: Executor.Shutdown() did not return", map[string]string{"oracle": "shutdown-hang", "mode": "cancelrace"})
+		}
+	}
+	r.Line(op, "done")
+	seen := map[string]bool{}
+	for _, f := range fails {
+		if !seen[f.oracle+f.sig["oracle"]] {
+			seen[f.oracle+f.sig["oracle"]] = true
+			r.Fail(f.oracle, f.detail, f.sig)
+		}
+	}
+	r.CountN("cancelrace-elements", total)
+	r.CountN("cancelrace-cancelled", cancelledN)
+	r.Nontrivial(fmt.Sprintf("cancelrace-%d", workers))
+}
+
 func b2i(b bool) int {
 	if b {
 		return 1
@@ -1524,7 +1657,7 @@ func b2i(b bool) int {
 
 // ---------------------------------------------------------------------------------------------------------
 
-func emit(r *hx.Run, sub uint64, res caseResult) {
+func emit(r *rec, sub uint64, res caseResult) {
 	r.Case(sub)
 	for i, l := range res.lines {
 		a := "bad-op"
@@ -1559,19 +1692,88 @@ func emit(r *hx.Run, sub uint64, res caseResult) {
 		h := sha256.Sum256([]byte(strings.Join(res.lines, "\n")))
 		r.Nontrivial(string(h[:8]))
 	}
-	r.Sample(r.CaseLines())
+}
+
+// execDescriptor runs one job: a sequential case ("seq <op line> | ...") or a stress part (its op line).
+func execDescriptor(j job, unit time.Duration) *rec {
+	r := newRec()
+	if strings.HasPrefix(j.Desc, "seq ") {
+		res := runCaseLines(strings.Split(strings.TrimPrefix(j.Desc, "seq "), " | "), unit)
+		if !res.valid {
+			r.Invalid = true
+			for _, f := range res.robust {
+				r.Fail(f.oracle, f.detail+"; ops="+strings.Join(res.lines, " | "), f.sig)
+			}
+
+			return r
+		}
+		emit(r, j.Sub, res)
+
+		return r
+	}
+	f := strings.Fields(j.Desc)
+	at := func(i int) int {
+		if i < len(f) {
+			v, _ := strconv.Atoi(f[i])
+
+			return v
+		}
+
+		return 0
+	}
+	switch {
+	case len(f) == 5 && f[0] == "stress":
+		runStress(r, j.Sub, f[1], at(2), at(3), at(4))
+	case len(f) == 5 && f[0] == "burst":
+		runBurst(r, j.Sub, f[1], at(2), at(3), at(4))
+	case len(f) == 3 && f[0] == "addrace":
+		runAddRace(r, j.Sub, at(1), at(2))
+	case len(f) == 5 && f[0] == "addburst":
+		runAddBurst(r, j.Sub, at(1), at(2), f[3] == "true", at(4))
+	case len(f) == 4 && f[0] == "sdrace":
+		runSdRace(r, j.Sub, at(1), at(2), at(3))
+	case len(f) == 3 && f[0] == "cancelrace":
+		runCancelRace(r, j.Sub, at(1), at(2))
+	default:
+		r.Line(j.Desc, "bad-op")
+	}
+
+	return r
 }
 
 func main() {
+	if len(os.Args) == 6 && os.Args[1] == "--child" {
+		par, _ := strconv.Atoi(os.Args[4])
+		ms, _ := strconv.Atoi(os.Args[5])
+		childMain(os.Args[2], os.Args[3], par, time.Duration(ms)*time.Millisecond)
+
+		return
+	}
 	r := hx.Start()
 	r.Rule = "histories of ExecuteAt (tracked and raw) / Cancel(id) / element Cancel / Shutdown(flag subsets) / release / hook-arm with arbitrary relative times, " +
 		"workers 1..3, max size 0..3, callbacks plain|blocking|re-scheduling own id|cancelling own id; non-trivial = at least two tasks ran; distinct by sha256 of the op lines; " +
-		"stress runs count as one non-trivial case each"
+		"stress runs count as one non-trivial case each; cases run in child processes, a crash of the code under test is an oracle failure of the case that was running"
 	unit := 24 * time.Millisecond
 	if u := os.Getenv("C18_UNIT_MS"); u != "" {
 		if v, err := strconv.Atoi(u); err == nil {
 			unit = time.Duration(v) * time.Millisecond
 		}
+	}
+	deliver := func(j job, res *rec) {
+		r.Case(j.Sub)
+		for _, l := range res.Lines {
+			r.Line(l[0], l[1])
+		}
+		for _, f := range res.Fails {
+			r.Fail(f.Oracle, f.Detail, f.Signature)
+		}
+		for k, v := range res.Counts {
+			r.CountN(k, v)
+		}
+		for _, k := range res.Nontriv {
+			r.Nontrivial(k)
+		}
+		r.Sample(r.CaseLines())
 	}
 	if lines := r.ReplayLines(); lines != nil {
 		var keep []string
@@ -1581,51 +1783,28 @@ func main() {
 			}
 			keep = append(keep, l)
 		}
-		if len(keep) > 0 && strings.HasPrefix(keep[0], "addburst") {
-			f := strings.Fields(keep[0])
-			a, _ := strconv.Atoi(f[1])
-			b, _ := strconv.Atoi(f[2])
-			c, _ := strconv.Atoi(f[4])
-			runAddBurst(r, r.Seed, a, b, f[3] == "true", c)
-		} else if len(keep) > 0 && strings.HasPrefix(keep[0], "sdrace") {
-			f := strings.Fields(keep[0])
-			a, _ := strconv.Atoi(f[1])
-			b, _ := strconv.Atoi(f[2])
-			c, _ := strconv.Atoi(f[3])
-			runSdRace(r, r.Seed, a, b, c)
-		} else if len(keep) > 0 && strings.HasPrefix(keep[0], "addrace") {
-			f := strings.Fields(keep[0])
-			a, _ := strconv.Atoi(f[1])
-			b, _ := strconv.Atoi(f[2])
-			runAddRace(r, r.Seed, a, b)
-		} else if len(keep) > 0 && strings.HasPrefix(keep[0], "burst") {
-			f := strings.Fields(keep[0])
-			a, _ := strconv.Atoi(f[2])
-			b, _ := strconv.Atoi(f[3])
-			c, _ := strconv.Atoi(f[4])
-			runBurst(r, r.Seed, f[1], a, b, c)
-		} else if len(keep) > 0 && strings.HasPrefix(keep[0], "stress") {
-			f := strings.Fields(keep[0])
-			a, _ := strconv.Atoi(f[2])
-			b, _ := strconv.Atoi(f[3])
-			c, _ := strconv.Atoi(f[4])
-			runStress(r, r.Seed, f[1], a, b, c)
-		} else {
-			emit(r, 0, runCaseLines(keep, unit))
+		j := job{Sub: r.Seed, Desc: "seq " + strings.Join(keep, " | ")}
+		if len(keep) > 0 {
+			switch strings.Fields(keep[0])[0] {
+			case "stress", "burst", "addrace", "addburst", "sdrace", "cancelrace":
+				j.Desc = keep[0]
+			}
 		}
+		seq := 0
+		res := runChunk(r.OutDir, &seq, []job{j}, 1, unit)[0]
+		if res.Invalid {
+			res.Line("nop", "done")
+		}
+		deliver(j, res)
 		r.Finish()
 
 		return
 	}
-	type job struct {
-		sub   uint64
-		lines []string
-	}
-	var jobs []job
+	var seqJobs, stressJobs []job
 	for _, c := range corpus() {
-		jobs = append(jobs, job{0, c})
+		seqJobs = append(seqJobs, job{0, "seq " + strings.Join(c, " | ")})
 	}
-	n := 1500 * r.Scale
+	n := 1200 * r.Scale
 	if r.Scale > 1 {
 		n = 1500 * 12
 	}
@@ -1634,87 +1813,83 @@ func main() {
 	}
 	for i := 0; i < n; i++ {
 		rng, sub := r.Rng.Fork()
-		jobs = append(jobs, job{sub, genCase(rng)})
+		seqJobs = append(seqJobs, job{sub, "seq " + strings.Join(genCase(rng), " | ")})
 	}
-	results := make([]caseResult, len(jobs))
-	par := 64
-	sem := make(chan struct{}, par)
-	var wg sync.WaitGroup
-	for i := range jobs {
-		wg.Add(1)
-		sem <- struct{}{}
-		go func(i int) {
-			defer wg.Done()
-			defer func() { <-sem }()
-			results[i] = runCaseLines(jobs[i].lines, unit)
-		}(i)
+	stress := func(format string, a ...any) {
+		_, sub := r.Rng.Fork()
+		stressJobs = append(stressJobs, job{sub, fmt.Sprintf(format, a...)})
 	}
-	wg.Wait()
+	for i := 0; i < 6*r.Scale; i++ {
+		stress("stress %s %d 4 150", []string{"cancel", "mixed"}[i%2], 1+i%3)
+	}
+	for _, wk := range []int{1, 2} {
+		stress("addrace %d %d", wk, 6*r.Scale)
+	}
+	for _, cfg := range [][3]int{{2, 2, 1}, {2, 2, 0}, {3, 3, 1}, {3, 4, 0}, {2, 4, 1}} {
+		stress("addburst %d %d %v %d", cfg[0], cfg[1], cfg[2] == 1, 6*r.Scale)
+	}
+	for _, cfg := range [][2]int{{4, 4}, {1, 4}, {2, 8}} {
+		reps := 400 * r.Scale
+		if v, err := strconv.Atoi(os.Getenv("C18_SDRACE_REPS")); err == nil {
+			reps = v
+		}
+		stress("sdrace %d %d %d", cfg[0], cfg[1], reps)
+	}
+	for _, wk := range []int{1, 2, 4} {
+		reps := 40 * r.Scale
+		if v, err := strconv.Atoi(os.Getenv("C18_CANCELRACE_REPS")); err == nil {
+			reps = v
+		}
+		stress("cancelrace %d %d", wk, reps)
+	}
+	for _, fl := range []string{"-", "c", "i", "ci"} {
+		for _, wk := range []int{2, 3} {
+			_, sub := r.Rng.Fork()
+			stressJobs = append(stressJobs, job{sub, fmt.Sprintf("burst %s %d %d %d", fl, wk, 1+int(sub%3), 10*r.Scale)})
+		}
+	}
+	// sequential cases: 64 at a time in a child, a few hundred per child; stress parts: one child each
+	seq := 0
 	dropped := 0
 	var droppedSamples []string
-	var kept []finding
-	for i, res := range results {
-		if !res.valid {
-			dropped++
-			if len(droppedSamples) < 5 {
-				droppedSamples = append(droppedSamples, strings.Join(res.lines, " | "))
-			}
-			for _, f := range res.robust {
-				f.detail += "; ops=" + strings.Join(res.lines, " | ")
-				kept = append(kept, f)
-			}
+	var kept []hx.Finding
+	const chunk = 512
+	for pos := 0; pos < len(seqJobs); pos += chunk {
+		part := seqJobs[pos:min(pos+chunk, len(seqJobs))]
+		for i, res := range runChunk(r.OutDir, &seq, part, 64, unit) {
+			if res.Invalid {
+				dropped++
+				if len(droppedSamples) < 5 {
+					droppedSamples = append(droppedSamples, strings.TrimPrefix(part[i].Desc, "seq "))
+				}
+				kept = append(kept, res.Fails...)
 
-			continue
+				continue
+			}
+			deliver(part[i], res)
 		}
-		emit(r, jobs[i].sub, res)
 	}
 	if len(kept) > 0 {
 		r.Case(0)
 		r.Line("nop", "done")
 		for i, f := range kept {
 			if i < 20 {
-				r.Fail(f.oracle, f.detail, f.sig)
+				r.Fail(f.Oracle, f.Detail, f.Signature)
 			}
 		}
 	}
 	r.Extra["timing_dropped_cases"] = dropped
 	r.Extra["timing_dropped_samples"] = droppedSamples
-	if dropped*25 > len(jobs) {
+	if dropped*25 > len(seqJobs) {
 		// rare glitches of the machine are tolerated; systematic lateness is not
 		r.Case(0)
 		r.Line("nop", "done")
-		r.Fail("harness", fmt.Sprintf("%d of %d cases stayed timing-invalid after 4 attempts: callbacks start late systematically, or the machine is overloaded", dropped, len(jobs)),
+		r.Fail("harness", fmt.Sprintf("%d of %d cases stayed timing-invalid after 4 attempts: callbacks start late systematically, or the machine is overloaded", dropped, len(seqJobs)),
 			map[string]string{"oracle": "timing-invalid-mass"})
 	}
 	r.Extra["unit_ms"] = unit.Milliseconds()
-	// stress
-	ns := 6 * r.Scale
-	for i := 0; i < ns; i++ {
-		_, sub := r.Rng.Fork()
-		variant := []string{"cancel", "mixed"}[i%2]
-		runStress(r, sub, variant, 1+i%3, 4, 150)
-	}
-	for _, wk := range []int{1, 2} {
-		_, sub := r.Rng.Fork()
-		runAddRace(r, sub, wk, 6*r.Scale)
-	}
-	for _, cfg := range [][3]int{{2, 2, 1}, {2, 2, 0}, {3, 3, 1}, {3, 4, 0}, {2, 4, 1}} {
-		_, sub := r.Rng.Fork()
-		runAddBurst(r, sub, cfg[0], cfg[1], cfg[2] == 1, 6*r.Scale)
-	}
-	for _, cfg := range [][2]int{{4, 4}, {1, 4}, {2, 8}} {
-		_, sub := r.Rng.Fork()
-		reps := 500 * r.Scale
-		if v, err := strconv.Atoi(os.Getenv("C18_SDRACE_REPS")); err == nil {
-			reps = v
-		}
-		runSdRace(r, sub, cfg[0], cfg[1], reps)
-	}
-	for _, fl := range []string{"-", "c", "i", "ci"} {
-		for _, wk := range []int{2, 3} {
-			_, sub := r.Rng.Fork()
-			runBurst(r, sub, fl, wk, 1+int(sub%3), 10*r.Scale)
-		}
+	for _, j := range stressJobs {
+		deliver(j, runChunk(r.OutDir, &seq, []job{j}, 1, unit)[0])
 	}
 	r.Finish()
 }
